@@ -7,6 +7,7 @@ import (
 	"encoding/json"
 	"flag"
 	"fmt"
+	"go/ast"
 	"os"
 	"path/filepath"
 	"runtime/debug"
@@ -44,6 +45,8 @@ func main() {
 		os.Exit(cmdCheck(os.Args[2:]))
 	case "explain":
 		os.Exit(cmdExplain(os.Args[2:]))
+	case "sym":
+		os.Exit(cmdSym(os.Args[2:]))
 	case "list":
 		ids := []string{}
 		for id := range registry {
@@ -131,5 +134,42 @@ func cmdExplain(args []string) int {
 	}
 	fmt.Printf("property   %s (%s tier)\nrule       %s\n           %s\nconstruct  %s\nposition   %s\nverdict    %s\ndetail     %s\n", v.Property, v.Tier, v.Obligation.Rule, v.RuleDoc, v.Obligation.Construct, v.Obligation.Pos, v.Obligation.Verdict, v.Obligation.Detail)
 	fmt.Printf("re-decide  bin/acvlint check -property %s -tier %s\n", v.Property, v.Tier)
+	return 0
+}
+
+// cmdSym (debugging aid): prints what E-sym computes for one function: acvlint sym [-repo dir] [-noinline] <pkg> <func>
+func cmdSym(args []string) int {
+	fs := flag.NewFlagSet("sym", flag.ExitOnError)
+	repo := fs.String("repo", "/repo", "repository working tree")
+	noinline := fs.Bool("noinline", false, "do not interpret same-package callees")
+	fs.Parse(args)
+	if fs.NArg() != 2 {
+		usage()
+	}
+	p, err := Load(*repo, "", "")
+	if err != nil {
+		fmt.Fprintln(os.Stderr, err)
+		return 2
+	}
+	fd, pk := p.FuncDecl(fs.Arg(0), fs.Arg(1))
+	if fd == nil {
+		fmt.Fprintln(os.Stderr, "function not found")
+		return 2
+	}
+	proto := &symWalker{}
+	if !*noinline {
+		proto.Inline = samePkgInline(pk)
+	}
+	proto.OnReturn = func(w *symWalker, ret *ast.ReturnStmt, results []*Sym) {
+		if w.depth != 0 {
+			return
+		}
+		var parts []string
+		for _, s := range results {
+			parts = append(parts, s.String())
+		}
+		fmt.Printf("RETURN [%s] => %s\n", condsText(w.Conds()), strings.Join(parts, " , "))
+	}
+	p.SymWalk(pk, fd, proto, nil)
 	return 0
 }
